@@ -90,6 +90,9 @@ CFG = {
         "Swat4.C17.addServer_5xx_reachable",
         "Swat4.C17.viewExecute_abstracts",
         "Swat4.C17.listExecute_abstracts",
+        # the probe fields the driver prints for a `discover` effect (Rest.discoveryProbe) are those of the item UC.addServer queues
+        "Swat4.RestBridge.addExecute_probe",
+        "Swat4.RestBridge.discoveryItem_probe",
     ],
     # proved in the Lean files and used by other proofs, but NOT audited as property theorems: each is a
     # read-back of a definition, glue between two names, true by type, or a corollary of an audited theorem
@@ -134,6 +137,10 @@ CFG = {
         "are not modelled: they are not compared, only passed through the oracle",
         "address strings containing '/' or empty are answered by the router (404 / 301), not by the handler: only 'no 5xx' is checked for them",
         "Go accepts ports written with a leading '+' and leading zeros (strconv.Atoi); the reference parser tolerates the same",
+        "the effect token of the driver: the probe fields are Model/Rest.lean `Effect.probe` = `discoveryProbe` (address, game port, goal 1, "
+        "0 retries, maximum = the harness world's DiscoveryRevivalRetries 2, a literal of Drv/C17.lean) - RestBridge.addExecute_probe proves this is the "
+        "probe of the one item UC.addServer appends to the queue; the 400 body is Model/Rest.lean `Resp.errorMessage` "
+        "({\"error\": \"Invalid server address\"} for add/view, no body for the listing)",
         "stored strings are valid UTF-8 (the repository stores json.Marshal of the record); slug.Make is modelled for ASCII, Latin-1, "
         "the five code points of slug's defaultSub and code points >= U+10000; a slug member of a string with another code point "
         "(unidecode's table beyond Latin-1) is not compared, only checked for the shape of a slug",
